@@ -344,9 +344,9 @@ def evalDynamicCalls : List String := [
   "invoke ‹unexported interface›.‹unexported method› func() ldreason.EvalErrorKind"
 ]
 def evaluatorWrites : List String := [
-  "method apply of an EvaluatorOption implementation: store field of type bool",
-  "method apply of an EvaluatorOption implementation: store field of type evaluation.BigSegmentProvider",
-  "method apply of an EvaluatorOption implementation: store field of type ldlog.BaseLogger"
+  "the EvaluatorOption method of an implementation: store field of type bool",
+  "the EvaluatorOption method of an implementation: store field of type evaluation.BigSegmentProvider",
+  "the EvaluatorOption method of an implementation: store field of type ldlog.BaseLogger"
 ]
 def globalWrites : List String := []
 
